@@ -13,7 +13,7 @@
    - std's partition_point is modelled as "first index where the predicate fails";
    - every panic!/unwrap/expect/unreachable!/debug_assert site of the source is a [Panic] outcome. *)
 From Coq Require Import List NArith ZArith Bool.
-From PG Require Import Model.VS Model.Term.
+From PG Require Import Model.VS Model.Term Model.Heap.
 Import ListNotations.
 
 Definition pkg := N.
@@ -801,6 +801,128 @@ Section Solver.
 
   Definition resolve (fuel : nat) (r : pkg) (v : Vr) (tr : list event) : result :=
     resolve_loop fuel (state_init r v) r [] tr 0 [].
+
+  (* ---------------------------------------------------------------- resolve with the exact priority queue
+     [resolve_loop_h] is [resolve_loop] with the priority queue of the implementation modelled exactly
+     (Model/Heap.v: the binary heap of the priority-queue crate) instead of "some package of maximal
+     priority, as recorded".  One more loop variable, the heap [hp] of (package, priority) pairs in
+     heap-position order:
+     - after unit propagation the heap is cleared iff the queue was cleared by a backtrack
+       (PartialSolution::backtrack: prioritized_potential_packages.clear());
+     - every prioritize answer of this pick is pushed, in call order (pick_highest_priority_pkg);
+     - the package of the next choose_version call must be the one the heap pops: otherwise the
+       outcome is [OMismatch n 6].
+     With the heap the model is a function of the provider's answers alone: the recorded trace no longer
+     supplies the choice among several packages of maximal priority (C07, C14).  Proofs/SolverDet.v proves
+     that erasing the heap gives back [resolve_loop]. *)
+  (* backtrack clears the queue; nothing else empties it while packages are queued *)
+  Definition heap_after_propagation (q : list (pkg * (Z * VS))) (hp : heap (I := pkg)) : heap (I := pkg) :=
+    match q with [] => [] | _ => hp end.
+
+  Fixpoint heap_pushes (hp : heap (I := pkg)) (evs : list event) : heap (I := pkg) :=
+    match evs with
+    | EvPrioritize p _ prio :: r => heap_pushes (heap_push N.eqb hp p prio) r
+    | _ :: r => heap_pushes hp r
+    | [] => hp
+    end.
+
+  Fixpoint resolve_loop_h (fuel : nat) (st : state) (next : pkg) (added : list (pkg * Vr))
+           (hp : heap (I := pkg)) (tr : list event) (n : nat) (log : list pick_info) : result :=
+    match fuel with
+    | 0 => (OOutOfFuel, st, log, n)
+    | S fuel' =>
+        match tr with
+        | EvCancel ok :: tr1 =>
+            if negb ok then (OErrCancel, st, log, S n) else
+            match unit_propagation fuel st [next] with
+            | inr EFuel => (OOutOfFuel, st, log, S n)
+            | inr (EPanic s) => (OPanic s, st, log, S n)
+            | inl (UPConflict st1 id) =>
+                match build_derivation_tree (store st1) id with
+                | Some t => (ONoSolution t, st1, log, S n)
+                | None => (OPanic PTreeMissing, st1, log, S n)
+                end
+            | inl (UPOk st1) =>
+                match do_prioritize (pick_candidates (ps st1)) (queue (ps st1)) tr1 (S n) with
+                | inr o => (o, st1, log, S n)
+                | inl (q, tr2, n2) =>
+                    let hp1 := heap_after_propagation (queue (ps st1)) hp in
+                    let hp2 := heap_pushes hp1 (firstn (n2 - S n) tr1) in
+                    let p1 := ps st1 in
+                    let log1 := log ++ [(undecided_positive p1, q, n2)] in
+                    let with_queue q' :=
+                      {| next_gidx := next_gidx p1; level := level p1; assignments := assignments p1;
+                         queue := q'; changed := length (assignments p1); backtracked := backtracked p1 |} in
+                    match queue_max q with
+                    | None => res_out log1 n2 (extract_solution p1) (fun sol => (OSolution sol, upd_ps st1 (with_queue q), log1, n2)) st1
+                    | Some mx =>
+                        match tr2 with
+                        | EvChoose p s ans :: tr3 =>
+                            match heap_pop hp2 with
+                            | None => (OMismatch n2 6, st1, log1, n2)
+                            | Some ((hpk, _), hp3) =>
+                            if negb (N.eqb p hpk) then (OMismatch n2 6, st1, log1, n2) else
+                            match get p q with
+                            | None => (OPickNotMax n2 p, st1, log1, n2)
+                            | Some (prio, _) =>
+                                if negb (Z.eqb prio mx) then (OPickNotMax n2 p, st1, log1, n2) else
+                                let st2 := upd_ps st1 (with_queue (remove p q)) in
+                                match term_for (ps st2) p with
+                                | None => (OFailure FNoTerm, st2, log1, n2)
+                                | Some ti =>
+                                    match ti with
+                                    | Neg _ => (OPanic PUnwrapPositive, st2, log1, n2)
+                                    | Pos cur_set =>
+                                        if negb (vs_eqb O s cur_set) then (OMismatch n2 2, st2, log1, n2) else
+                                        match ans with
+                                        | CErr => (OErrChoose, st2, log1, S n2)
+                                        | CNone =>
+                                            match no_versions p ti with
+                                            | None => (OPanic PNoVersionsNegative, st2, log1, S n2)
+                                            | Some inc =>
+                                                res_out log1 (S n2) (add_incompatibility st2 inc)
+                                                        (fun st3 => resolve_loop_h fuel' st3 p added hp3 tr3 (S n2) log1) st2
+                                            end
+                                        | CSome v =>
+                                            if negb (t_contains O ti v) then (OFailure FIncompatibleVersion, st2, log1, S n2) else
+                                            if added_has added p v then
+                                              res_out log1 (S n2) (add_decision (ps st2) p v)
+                                                      (fun p' => resolve_loop_h fuel' (upd_ps st2 p') p added hp3 tr3 (S n2) log1) st2
+                                            else
+                                              let added' := (p, v) :: added in
+                                              match tr3 with
+                                              | EvDeps p' v' dans :: tr4 =>
+                                                  if negb (N.eqb p p' && veqb v v') then (OMismatch (S n2) 3, st2, log1, S n2) else
+                                                  match dans with
+                                                  | DErr => (OErrDeps p v, st2, log1, S (S n2))
+                                                  | DUnavail m =>
+                                                      res_out log1 (S (S n2)) (add_incompatibility st2 (custom_version p v m))
+                                                              (fun st3 => resolve_loop_h fuel' st3 p added' hp3 tr4 (S (S n2)) log1) st2
+                                                  | DAvail deps =>
+                                                      res_out log1 (S (S n2)) (add_incompatibility_from_dependencies st2 p v deps)
+                                                        (fun '(st3, range) =>
+                                                           res_out log1 (S (S n2)) (add_version (ps st3) p v range (store st3))
+                                                                   (fun p' => resolve_loop_h fuel' (upd_ps st3 p') p added' hp3 tr4 (S (S n2)) log1) st3)
+                                                        st2
+                                                  end
+                                              | _ => (OMismatch (S n2) 3, st2, log1, S n2)
+                                              end
+                                        end
+                                    end
+                                end
+                            end
+                            end
+                        | _ => (OMismatch n2 4, st1, log1, n2)
+                        end
+                    end
+                end
+            end
+        | _ => (OMismatch n 5, st, log, n)
+        end
+    end.
+
+  Definition resolve_h (fuel : nat) (r : pkg) (v : Vr) (tr : list event) : result :=
+    resolve_loop_h fuel (state_init r v) r [] [] tr 0 [].
 
 End Solver.
 
